@@ -353,7 +353,25 @@ class AEval(dtable.Eval):
                 it = L()
             if it[0] != "list":
                 raise Unknown("for over non list")
+            store = None      # (place node, "elems" | "values") when the loop walks a collection by mutable reference
+            if consume is None:
+                sn = src
+                while is_node(sn) and sn["k"] == "Paren":
+                    sn = sn["expr"]
+                if is_node(sn) and sn["k"] == "MethodCall" and sn["method"] in ("iter_mut", "values_mut") and not sn["args"]:
+                    pl = self._mut_place(sn["receiver"], env)
+                    if pl is not None:
+                        store = (pl, "values" if sn["method"] == "values_mut" else "elems")
+                elif is_node(sn) and sn["k"] == "Ref" and sn.get("mut"):
+                    pl = self._mut_place(sn["expr"], env)
+                    if pl is not None and self.ex(pl, env)[0] == "list" and not isinstance(self.ex(pl, env), MutRef):
+                        store = (pl, "elems")
+            new_elems = []
+            idx = -1
             for x in it[1]:
+                idx += 1
+                if store is not None:
+                    new_elems.append(x)
                 if consume is not None:
                     # iterating through `&mut it`: the iterator variable loses the element (what is left stays for later)
                     env[consume] = ("list", tuple(env[consume][1][1:]))
@@ -377,6 +395,14 @@ class AEval(dtable.Eval):
                     for kk in env:
                         if kk in e2 and kk not in b:
                             env[kk] = e2[kk]
+                    if store is not None and b and any(e2.get(k2) != b[k2] for k2 in b):
+                        new_elems[idx] = self._rebuild(e["pat"], x, e2)
+            if store is not None and list(new_elems) != list(it[1]) and len(new_elems) == len(it[1]):
+                cur = self.ex(store[0], env)
+                if cur[0] == "list" and len(cur[1]) == len(new_elems):
+                    if store[1] == "values":
+                        new_elems = [T(o[1][0], nv) if o[0] == "tuple" and len(o[1]) == 2 else nv for o, nv in zip(cur[1], new_elems)]
+                    self._place_store(store[0], L(*new_elems), env)
             return UNIT
         if k == "Assign":
             v = self.ex(e["right"], env)
@@ -407,6 +433,8 @@ class AEval(dtable.Eval):
                 a = lo[1] if lo else 0
                 z = (hi[1] + (1 if rg.get("inclusive") else 0)) if hi else len(b[1])
                 return L(*b[1][a:z])
+            if b[0] == "str" and (lo is None or lo[0] == "int") and (hi is None or hi[0] == "int"):
+                return ("str", _bytes_slice(b[1], lo[1] if lo else 0, (hi[1] + (1 if rg.get("inclusive") else 0)) if hi else None))
             raise Unknown("slice")
         if k == "Index":
             b = self.ex(e["expr"], env)
@@ -448,6 +476,9 @@ class AEval(dtable.Eval):
             f = self.ex(e["args"][0], env)
             vals = [self.ex(a, env) for a in e["args"][1:]]
             vals = [("str", self.tokens_of(v)) if v[0] in ("tok", "atom") else v for v in vals]
+            vals = [("str", "true" if v[1] else "false") if v[0] == "bool" else v for v in vals]
+            if getattr(self, "display", None) is not None:
+                vals = [self.display(v) if v[0] == "ctor" else v for v in vals]
             s = dtable.render([("fmt", f, tuple(vals))])
             return ("str", s) if p == "format" else TOK(s)
         if p in ("write", "writeln") and "args" in e and len(e["args"]) >= 2:
@@ -457,6 +488,10 @@ class AEval(dtable.Eval):
             return C("Ok", UNIT)
         if p == "vec" and "args" in e:
             return L(*[self.ex(a, env) for a in e["args"]])
+        if "macro!" + p not in env and p in getattr(self, "macros", {}) and "args" in e:
+            env = dict(env)
+            env["macro!" + p] = ("macro",) + tuple(self.macros[p])
+            # (file-level one-rule macro: same treatment as a local one; it cannot assign to the caller's variables)
         if "macro!" + p in env and "args" in e:
             # a one-rule macro_rules! defined in this function: its body evaluated in the scope of the call, parameters
             # bound to the argument expressions' values (the body names the enclosing function's variables directly)
@@ -535,6 +570,9 @@ class AEval(dtable.Eval):
                 raise Unknown("parameter pattern")
             env.update(b)
         self.depth += 1
+        if not hasattr(self, "_impl_stack"):
+            self._impl_stack = []
+        self._impl_stack.append((fn.impl_self or "").split("<")[0].split("::")[-1])
         try:
             try:
                 return self._coerce_ret(fn, self.ex(fn.body, env))
@@ -542,6 +580,7 @@ class AEval(dtable.Eval):
                 return r.value
         finally:
             self.depth -= 1
+            self._impl_stack.pop()
             self._callee_env = (fn, env)
 
     def _write_back(self, arg_nodes, env):
@@ -593,6 +632,122 @@ class AEval(dtable.Eval):
                 return
         raise Unknown("assignment target")
 
+    MUT_ACCESSORS = ("last_mut", "first_mut", "as_mut", "as_deref_mut", "as_mut_slice", "as_mut_str", "deref_mut", "borrow_mut", "get_mut", "by_ref", "iter_mut")
+
+    def _mut_place(self, node, env):
+        """node stripped of reborrows if it denotes storage that can be written through: a variable, a field chain, or
+        `place.last_mut()` / `.first_mut()` / `.as_mut()` / `.as_mut_slice()` / `.get_mut()` (RefCell, Box) on one; else None"""
+        while is_node(node) and node["k"] in ("Paren", "Unary", "Ref"):
+            node = node["expr"]
+        if not is_node(node):
+            return None
+        if node["k"] == "Path":
+            return node if node["path"] in env else None
+        if node["k"] == "Field":
+            return node if self._mut_place(node["base"], env) is not None else None
+        if node["k"] == "MethodCall" and node["method"] in self.MUT_ACCESSORS and not node["args"] and node["method"] not in self.builtins:
+            return node if self._mut_place(node["receiver"], env) is not None else None
+        return None
+
+    def _place_store(self, node, newv, env):
+        """write newv (the value as seen through the accessors) back into the storage denoted by a _mut_place node"""
+        while is_node(node) and node["k"] in ("Paren", "Unary", "Ref"):
+            node = node["expr"]
+        if node["k"] in ("Path", "Field"):
+            self._assign_place(node, newv, env)
+            return
+        m = node["method"]
+        inner = self._mut_place(node["receiver"], env)
+        cur = self.ex(inner, env)
+        if m in ("last_mut", "first_mut"):
+            if cur[0] != "list" or not (newv[0] == "ctor" and newv[1] in ("Some", "None")):
+                raise Unknown("write through " + m)
+            if newv[1] == "None" or not cur[1]:
+                return
+            xs = list(cur[1])
+            xs[-1 if m == "last_mut" else 0] = newv[2][0]
+            self._place_store(inner, L(*xs), env)
+            return
+        self._place_store(inner, newv, env)    # as_mut / as_mut_slice / get_mut ...: same value, seen by reference
+
+    def _rebuild(self, p, oldv, env):
+        """the value matched by pattern p, with the variables p binds replaced by their current values in env"""
+        k = p["k"]
+        if k == "PIdent":
+            if p["name"][:1].isupper() and "sub" not in p:
+                return oldv
+            if "sub" in p:
+                return self._rebuild(p["sub"], env.get(p["name"], oldv), env)
+            return env.get(p["name"], oldv)
+        if k in ("PRef", "PType", "PParen"):
+            return self._rebuild(p["pat"], oldv, env)
+        if k == "PTupleStruct" and oldv[0] == "ctor":
+            elems = [x for x in p["elems"]]
+            if any(x["k"] == "PRest" for x in elems) or len(elems) != len(oldv[2]):
+                return oldv
+            return ("ctor", oldv[1], tuple(self._rebuild(x, ov, env) for x, ov in zip(elems, oldv[2]))) + tuple(oldv[3:])
+        if k == "PStruct" and oldv[0] == "ctor" and len(oldv) > 3:
+            fs = dict(oldv[3])
+            for f in p["fields"]:
+                if f["member"] in fs:
+                    fs[f["member"]] = self._rebuild(f["pat"], fs[f["member"]], env)
+            return ("ctor", oldv[1], oldv[2], tuple(sorted(fs.items())))
+        if k == "PTuple" and oldv[0] == "tuple" and len(p["elems"]) == len(oldv[1]) and not any(x["k"] == "PRest" for x in p["elems"]):
+            return ("tuple", tuple(self._rebuild(x, ov, env) for x, ov in zip(p["elems"], oldv[1])))
+        if k == "PSlice" and oldv[0] == "list" and len(p["elems"]) == len(oldv[1]) and not any(x["k"] == "PRest" or (x["k"] == "PIdent" and "sub" in x and x["sub"]["k"] == "PRest") for x in p["elems"]):
+            return ("list", tuple(self._rebuild(x, ov, env) for x, ov in zip(p["elems"], oldv[1])))
+        if k == "POr":
+            for c in p["cases"]:
+                try:
+                    if self.pat(c, oldv, {}) is not None:
+                        return self._rebuild(c, oldv, env)
+                except Unknown:
+                    pass
+        return oldv
+
+    def _after_arm(self, scrut_node, pat, v, b, e2, env):
+        """a match arm / if-let branch ran with the bindings b of pattern `pat` against the value v of `scrut_node`: when
+        the scrutinee is writable storage and the branch changed a bound variable (it was bound by reference), the storage
+        now holds the changed value - unless the branch assigned the storage itself"""
+        if not b:
+            return
+        tgt = self._mut_place(scrut_node, env)
+        if tgt is None:
+            if is_node(scrut_node) and scrut_node["k"] == "Tuple" and pat["k"] == "PTuple" and v[0] == "tuple" and len(scrut_node["elems"]) == len(pat["elems"]) == len(v[1]):
+                for sn, pp, vv in zip(scrut_node["elems"], pat["elems"], v[1]):
+                    names = {y["name"] for y in walk(pp) if y["k"] == "PIdent"}
+                    self._after_arm(sn, pp, vv, {k2: b[k2] for k2 in b if k2 in names}, e2, env)
+            return
+        if all(e2.get(k2) == b[k2] for k2 in b):
+            return
+        try:
+            if self.ex(tgt, env) != v:
+                return          # the branch replaced the whole value (`*self = ..`)
+            newv = self._rebuild(pat, v, e2)
+            if newv != v:
+                self._place_store(tgt, newv, env)
+        except Unknown:
+            pass
+
+    def match(self, m, env):
+        v = self.ex(m["scrutinee"], env)
+        for a in m["arms"]:
+            b = self.pat(a["pat"], v, env)
+            if b is None:
+                continue
+            e2 = dict(env)
+            e2.update(b)
+            if a.get("guard") is not None and not self.cond(a["guard"], e2):
+                continue
+            try:
+                return self.ex(a["body"], e2)
+            finally:
+                for kk in env:
+                    if kk not in b and kk in e2:
+                        env[kk] = e2[kk]
+                self._after_arm(m["scrutinee"], a["pat"], v, b, e2, env)
+        raise Unknown("no arm matches " + str(v)[:200])
+
     def _is_place(self, node, env):
         while is_node(node) and node["k"] in ("Paren", "Unary", "Ref"):
             node = node["expr"]
@@ -638,12 +793,44 @@ class AEval(dtable.Eval):
 
     def call(self, e, env):
         f = e["func"]
+        if is_node(f) and f["k"] == "Path" and re.search(r"(^|::)mem::(take|replace|swap)$", f["path"]) and e["args"]:
+            which = f["path"].rsplit("::", 1)[1]
+            tgt = self._mut_place(e["args"][0], env)
+            if tgt is not None:
+                old_ = self.ex(tgt, env)
+                if which == "take" and len(e["args"]) == 1:
+                    empty = L() if old_[0] == "list" else (("str", "") if old_[0] == "str" else (C("None") if old_[0] == "ctor" and old_[1] in ("Some", "None") else (I(0) if old_[0] == "int" else (C("Default") if old_[0] == "ctor" else DEFAULT))))
+                    self._place_store(tgt, empty, env)
+                    return old_
+                if which == "replace" and len(e["args"]) == 2:
+                    newv = self.ex(e["args"][1], env)
+                    self._place_store(tgt, newv, env)
+                    return old_
+                if which == "swap" and len(e["args"]) == 2:
+                    t2 = self._mut_place(e["args"][1], env)
+                    if t2 is not None:
+                        o2 = self.ex(t2, env)
+                        self._place_store(tgt, o2, env)
+                        self._place_store(t2, old_, env)
+                        return UNIT
         args = [self.ex(a, env) for a in e["args"]]
         if is_node(f) and f["k"] == "Path":
             last = f["path"].split("::")[-1]
             for key in (f["path"], "::".join(f["path"].split("::")[-2:])):
                 if key in self.path_builtins:
                     return self.path_builtins[key](args)
+            segs = f["path"].split("::")
+            if len(segs) >= 2 and segs[-2] in ("RefCell", "Cell", "Mutex", "RwLock", "Rc", "Arc", "Box", "Cow", "Some", "OnceCell") and last in ("new", "from") and len(args) == 1 \
+                    and "::".join(segs[-2:]) not in self.funcs:
+                return args[0]
+            if len(segs) >= 2 and "::".join(segs[-2:]) in self.funcs:
+                v = self.call_fn("::".join(segs[-2:]), args)
+                self._write_back(e["args"], env)
+                return v
+            if len(segs) >= 2 and segs[-2] == "Self" and getattr(self, "_impl_stack", None) and ("%s::%s" % (self._impl_stack[-1], last)) in self.funcs:
+                v = self.call_fn("%s::%s" % (self._impl_stack[-1], last), args)
+                self._write_back(e["args"], env)
+                return v
             if f["path"] in env:
                 return self.apply(env[f["path"]], args)
             if f["path"] in COLLECTION_CTORS:
@@ -869,6 +1056,19 @@ class AEval(dtable.Eval):
             v = self.ex(e["args"][0], env)
             self.out.append(v)
             return C("Ok", UNIT) if m.startswith("write") else UNIT
+        if m == "get" and len(e["args"]) == 1 and is_node(e["args"][0]) and e["args"][0]["k"] == "Range":
+            r0 = self.ex(rnode, env)
+            if r0[0] == "str":
+                rg = e["args"][0]
+                lo = self.ex(rg["start"], env) if is_node(rg.get("start")) else I(0)
+                hi = self.ex(rg["end"], env) if is_node(rg.get("end")) else None
+                if lo[0] != "int" or (hi is not None and hi[0] != "int"):
+                    raise Unknown("str::get bounds")
+                z = None if hi is None else hi[1] + (1 if rg.get("inclusive") else 0)
+                try:
+                    return C("Some", ("str", _bytes_slice(r0[1], lo[1], z)))
+                except Ret:
+                    return C("None")
         r = self.ex(rnode, env)
         args = [self.ex(a, env) for a in e["args"]]
         if r == DEFAULT and m in ("iter", "into_iter", "iter_mut", "is_empty", "len", "first", "last", "get", "contains", "contains_key", "keys", "values"):
@@ -908,15 +1108,23 @@ class AEval(dtable.Eval):
             return C("Ok", L(*[x[2][0] for x in r[1]]))
         if r[0] in ("int",) and m in ("is_finite",) and not args:
             return B(True)
+        if m == "to_string" and not args and r[0] == "ctor" and getattr(self, "display", None) is not None and m not in self.funcs:
+            return self.display(r)
+        if m == "to_string" and not args and r[0] in ("int", "bool"):
+            return ("str", str(r[1]) if r[0] == "int" else ("true" if r[1] else "false"))
         if r[0] == "atom" and m in ("clone", "to_owned", "as_ref", "as_mut", "borrow", "borrow_mut", "deref", "into", "cloned", "copied") and not args:
             return r
         if r[0] == "atom" and not r[1].startswith("expr:") and not r[1].startswith("lit:"):
             return A("%s.%s" % (r[1], m))
         if m in self.funcs and r[0] != "list" and not (m in ("map", "iter") and r[0] in ("ctor",) and r[1] in ("Some", "None")):
-            v = self.call_fn(m, [r] + args)
+            qual = None
+            tyname = getattr(self, "type_of_ctor", {}).get(r[1]) if r[0] == "ctor" else None
+            if tyname and ("%s::%s" % (tyname, m)) in self.funcs:
+                qual = "%s::%s" % (tyname, m)
+            v = self.call_fn(qual or m, [r] + args)
             self._write_back([rnode] + list(e["args"]), env)
             return v
-        if m in ("iter", "iter_mut", "into_iter", "as_slice", "as_ref", "as_mut", "by_ref", "deref", "borrow", "clone", "cloned", "copied", "to_owned",
+        if m in ("iter", "iter_mut", "into_iter", "as_slice", "as_mut_slice", "as_ref", "as_mut", "as_deref_mut", "by_ref", "deref", "deref_mut", "borrow", "borrow_mut", "get_mut", "clone", "cloned", "copied", "to_owned",
                  "into", "collect", "to_token_stream", "as_deref", "peekable", "to_vec", "values") and not args:
             if m == "values" and r[0] == "list":
                 return L(*[x[1][1] if x[0] == "tuple" and len(x[1]) == 2 else x for x in r[1]])
@@ -1000,6 +1208,10 @@ class AEval(dtable.Eval):
             if m in ("join", "concat") and all(x[0] == "str" for x in xs) and (not args or args[0][0] in ("str", "char")):
                 sep = "" if not args else (args[0][1] if args[0][0] == "str" else chr(args[0][1]))
                 return ("str", sep.join(x[1] for x in xs))
+            if m in ("last", "last_mut") and not args:
+                return C("Some", xs[-1]) if xs else C("None")
+            if m in ("first", "first_mut") and not args:
+                return C("Some", xs[0]) if xs else C("None")
             if m == "next" and not args:
                 return C("Some", xs[0]) if xs else C("None")
             if m == "rev":
@@ -1109,6 +1321,16 @@ class AEval(dtable.Eval):
                 return B(r[1] == "Err")
             if m == "ok":
                 return C("Some", r[2][0]) if r[1] == "Ok" else C("None")
+        if r[0] == "char" and not args:
+            ch = chr(r[1])
+            if m == "len_utf8":
+                return I(len(ch.encode()))
+            if m in ("is_whitespace", "is_alphabetic", "is_numeric", "is_alphanumeric", "is_ascii_digit", "is_ascii_alphabetic", "is_ascii", "is_ascii_whitespace", "is_control"):
+                return B({"is_whitespace": ch.isspace(), "is_alphabetic": ch.isalpha(), "is_numeric": ch.isnumeric(), "is_alphanumeric": ch.isalnum(),
+                          "is_ascii_digit": ch in "0123456789", "is_ascii_alphabetic": ch.isascii() and ch.isalpha(), "is_ascii": ch.isascii(),
+                          "is_ascii_whitespace": ch in " \t\n\r\x0c", "is_control": ord(ch) < 32 or 127 <= ord(ch) < 160}[m])
+            if m == "to_string":
+                return ("str", ch)
         if r[0] == "bool" and m == "then":
             return C("Some", self.apply(args[0], [])) if r[1] else C("None")
         if r[0] == "bool" and m == "then_some":
@@ -1179,6 +1401,44 @@ class AEval(dtable.Eval):
             return ("str", t)
         if m == "chars" and not args:
             return L(*[("char", ord(c)) for c in t])
+        if m == "char_indices" and not args:
+            out, off = [], 0
+            for c in t:
+                out.append(T(I(off), ("char", ord(c))))
+                off += len(c.encode())
+            return L(*out)
+        if m == "bytes" and not args:
+            return L(*[I(x) for x in t.encode()])
+        pat_ = None
+        if a0 is not None and a0[0] == "list" and a0[1] and all(x[0] == "char" for x in a0[1]):
+            pat_ = [chr(x[1]) for x in a0[1]]
+        elif a0 is not None and a0[0] in ("char", "str"):
+            pat_ = chr(a0[1]) if a0[0] == "char" else a0[1]
+        if m in ("find", "rfind") and pat_ is not None and len(args) == 1:
+            if m == "find":
+                i = _bfind(t, pat_)
+            else:
+                cands = [t.rfind(p_) for p_ in (pat_ if isinstance(pat_, list) else [pat_])]
+                i = max(cands) if max(cands) >= 0 else None
+                i = len(t[:i].encode()) if i is not None else None
+            return C("Some", I(i)) if i is not None else C("None")
+        if m == "match_indices" and pat_ is not None and not isinstance(pat_, list) and pat_ != "":
+            out, start = [], 0
+            while True:
+                i = t.find(pat_, start)
+                if i < 0:
+                    break
+                out.append(T(I(len(t[:i].encode())), ("str", pat_)))
+                start = i + len(pat_)
+            return L(*out)
+        if m == "split_at" and len(args) == 1 and args[0][0] == "int":
+            return T(("str", _bytes_slice(t, 0, args[0][1])), ("str", _bytes_slice(t, args[0][1], None)))
+        if m == "is_char_boundary" and len(args) == 1 and args[0][0] == "int":
+            try:
+                t.encode()[:args[0][1]].decode()
+                return B(0 <= args[0][1] <= len(t.encode()))
+            except UnicodeDecodeError:
+                return B(False)
         if sa is not None:
             if m == "contains":
                 return B(sa in t)
@@ -1319,6 +1579,7 @@ class AEval(dtable.Eval):
                     for kk in env:
                         if kk not in b and kk in e2:
                             env[kk] = e2[kk]
+                    self._after_arm(c["expr"], c["pat"], v, b, e2, env)
             return self.ex(n["else"], env) if n.get("else") else UNIT
         if self.truth(c, env):
             return self.ex(n["then"], env)
@@ -1339,10 +1600,16 @@ class AEval(dtable.Eval):
             if b is None:
                 raise Unknown("parameter pattern")
             env.update(b)
+        self.last_env = env       # what the function did to its `&mut` parameters can be read here afterwards
+        if not hasattr(self, "_impl_stack"):
+            self._impl_stack = []
+        self._impl_stack.append((fn.impl_self or "").split("<")[0].split("::")[-1])
         try:
             return self._coerce_ret(fn, self.ex(fn.body, env))
         except Ret as r:
             return r.value
+        finally:
+            self._impl_stack.pop()
 
 
 def _tok_iter(tokens):
@@ -1352,11 +1619,48 @@ def _tok_iter(tokens):
             yield from _tok_iter(t["c"])
 
 
+def file_macros(ast, file_suffix):
+    """name -> (parameter names, body) of the one-rule macro_rules! defined at item level in a file"""
+    out = {}
+    for (path, mods, it) in ast.item_macros:
+        if path.endswith(file_suffix) and it.get("path") == "macro_rules" and it.get("rule_body") is not None:
+            out[it["ident"]] = (it["rule_params"], it["rule_body"])
+    return out
+
+
+def _bytes_slice(t, a, z):
+    """&t[a..z] with byte offsets; panics (as Rust does) when an offset is not a character boundary / out of range"""
+    b = t.encode()
+    if z is None:
+        z = len(b)
+    if not (0 <= a <= z <= len(b)):
+        raise Ret(C("!panic"))
+    try:
+        b[:a].decode()
+        return b[a:z].decode()
+    except UnicodeDecodeError:
+        raise Ret(C("!panic"))
+
+
+def _bfind(t, pat, start=0):
+    """byte offset of the first occurrence of pat (a string, or a list of single characters) in t, or None"""
+    best = None
+    for p_ in (pat if isinstance(pat, list) else [pat]):
+        i = t.find(p_, start)
+        if i >= 0:
+            bi = len(t[:i].encode())
+            if best is None or bi < best:
+                best = bi
+    return best
+
+
 def file_funcs(ast, file_suffix, impl_self=None):
     """name -> Fn for the non-test functions of a file (methods of impl_self first when names clash)"""
     out = {}
     for f in ast.fns:
         if f.file.endswith(file_suffix) and not f.is_test() and f.body is not None:
+            if f.impl_self:
+                out.setdefault("%s::%s" % (f.impl_self.split("<")[0].split("::")[-1], f.name), f)
             if f.name in out and not (impl_self and f.impl_self and impl_self in f.impl_self):
                 continue
             out[f.name] = f
